@@ -12,7 +12,9 @@ import (
 	"bytes"
 	"encoding/base64"
 	"fmt"
+	"io"
 	"math"
+	"os"
 	"sort"
 	"strings"
 
@@ -29,7 +31,7 @@ func Spec() *run.Spec {
 		Rule: "case = one abstract PLY file rendered by the reference encoder: format ascii/LE/BE; vertex properties = any subset of the recognised groups " +
 			"(x y z | nx ny nz | red green blue [alpha] | s t | f_dc_* | opacity | scale_* | rot_*; now and then the alternative spellings polyform documents: px.., posx.., normalx.., r g b [a], diffuse_*), " +
 			"one storage type per group (uchar/int/float/double as a tool would use them), 0-3 unrecognised scalars and now and then an incomplete group, in canonical, group-shuffled or fully shuffled order, each type spelled by either alias; " +
-			"0..24 vertices ('large' phase 2 000..30 000, thorough ..80 000); no face element, `element face 0`, or 1..9 faces (triangles/quads mixed) with count type uchar/int/uint and index type int/uint, property vertex_indices or vertex_index, " +
+			"0..24 vertices ('large' phase: directed sizes 65 535/65 536/65 537/70 001/131 073 (thorough also 200 003/262 145/300 007) in each encoding, then random 2 000..30 000, thorough ..80 000); no face element, `element face 0`, or 1..9 faces (triangles/quads mixed) with count type uchar/int/uint and index type int/uint, property vertex_indices or vertex_index, " +
 			"optionally a per-corner texcoord float list and an unrelated list, in any order; 0-4 comment/obj_info lines anywhere after the format line (some looking like keywords); LF or CRLF header (ascii: CRLF body too), one file in ten with wider white space between header tokens, " +
 			"ascii numbers in five decimal styles, separators blank/double blank/tab, optional trailing blank, optional missing final newline. " +
 			"Non-trivial: property order differs from the order polyform's own writer emits, or ≥1 alias / unrecognised scalar / quad. Distinct = distinct header layouts (format, line ending, spelled property list, face lists, size buckets, ascii style).",
@@ -38,12 +40,15 @@ func Spec() *run.Spec {
 			"one storage type per recognised group (mixed-type groups are outside the statement, DESIGN C08); never two spellings of the same attribute, never s/t together with a texcoord list",
 			"for unrecognised (scalar-path) uchar properties both conventions are accepted, consistently per column: raw 0..255 or ÷255 (DESIGN C08; the disagreement is C04's known finding)",
 			"with a per-corner texcoord list the comparison is per corner, otherwise per vertex (vertex i == record i, attribute arrays of exactly `vertex count` entries) and per face through the indices",
+			"every file reaches ply.ReadMesh (and, a second time, ply.ReadHeader) through a reader kind drawn per case (bytes.Reader, bytes.Buffer, bufio.Reader, plain io.Reader wrapper, iotest One-byte/Half/DataErr readers, io.LimitReader, *os.File, io.Pipe): third-party files arrive as files, pipes and streams; ReadHeader must leave exactly the body unread (its doc comment)",
 			"the model → bytes → independent decoder (plyfile) loop is checked on every case; a disagreement there makes the case inconclusive (harness fault), not a violation",
 		},
 		MinNontrivial: map[string]int{"quick": 1000, "thorough": 20000},
 		MinObserved: map[string]int64{
 			"formats": 3, "files_loaded": 2000, "vertex_values_compared": 20000, "face_element_with_0_faces": 30, "no_face_element": 30,
 			"quad_faces": 100, "files_with_texcoord_list": 30, "type_spellings": 8, "crlf_headers": 100,
+			"source_kinds": 10, "readheader_source_kinds": 10, "source_kind_x_format": 30,
+			"ascii_files_over_65536_vertices_loaded": 3, "binary_files_over_65536_vertices_loaded": 6,
 		},
 		Phases: []run.Phase{
 			{Name: "foreign", Cases: func(t string) int {
@@ -56,14 +61,26 @@ func Spec() *run.Spec {
 				if t == "thorough" {
 					return 120
 				}
-				return 16
+				return 23
 			}, Run: func(c *run.Ctx) run.Result {
 				o := genOpts{Large: true, MinV: 2000, MaxV: 30000}
+				// directed: sizes around 2^16 and 2^17 (allocation / growth boundaries of readers) in every encoding
+				sizes := []int{65535, 65536, 65537, 70001, 131073}
 				if c.Tier == "thorough" {
-					o.MaxV = 80000 // indices beyond 16 bits
+					o.MaxV = 80000
+					sizes = append(sizes, 200003, 262145, 300007)
+				}
+				formats := []string{"ascii", "binary_little_endian", "binary_big_endian"}
+				directed := len(sizes) * len(formats)
+				if c.Tier == "thorough" {
+					directed *= 2
+				}
+				if c.Case < directed {
+					o.ForceV = sizes[c.Case%len(sizes)]
+					o.ForceFormat = formats[(c.Case/len(sizes))%len(formats)]
 				}
 				return runCase(c, o)
-			}, Batch: 1, CPUBudgetS: 120},
+			}, Batch: 1, CPUBudgetS: 300},
 		},
 	}
 }
@@ -240,13 +257,57 @@ func runCase(c *run.Ctx, o genOpts) run.Result {
 		return res
 	}
 
-	// --- load
+	// --- load, through a reader kind drawn per case
+	srcRng := c.SubRng(0x50c)
+	kind, hkind := plyfile.PickSource(srcRng), plyfile.PickSource(srcRng)
+	dir := c.ScratchDir()
+	if c.Replay {
+		defer os.RemoveAll(dir)
+	}
+	input += " src=" + kind
 	c.SaveInput(data)
-	c.Note("ReadMesh " + m.Format)
+	c.Note("ReadMesh " + m.Format + " from " + kind)
 	var mesh *modeling.Mesh
 	var err error
-	p := run.Try(func() { mesh, err = ply.ReadMesh(bytes.NewReader(data)) })
+	src, done, serr := plyfile.Source(kind, data, dir, fmt.Sprintf("%s-%d-m", c.Phase, c.Case))
+	if serr != nil {
+		res.Inconclusive = "harness: cannot open source " + kind + ": " + serr.Error()
+		return res
+	}
+	p := run.Try(func() { mesh, err = ply.ReadMesh(src) })
+	done()
+	res.SetAdd("source_kinds", kind)
+	res.SetAdd("source_kind_x_format", kind+"/"+m.Format)
 	site := "ply.ReadMesh " + m.Format
+	if p != nil || err != nil {
+		site += " (" + readerClass(kind) + ")"
+	}
+	{
+		w0 := wit
+		wit = func() map[string]any { w := w0(); w["source"] = kind; return w }
+	}
+	// ply.ReadHeader on its own: the caller's reader must be left at the first body byte
+	if hs, hdone, herr := plyfile.Source(hkind, data, dir, fmt.Sprintf("%s-%d-h", c.Phase, c.Case)); herr == nil {
+		var rest []byte
+		var e1, e2 error
+		hp := run.Try(func() {
+			if _, e1 = ply.ReadHeader(hs); e1 == nil {
+				rest, e2 = io.ReadAll(hs)
+			}
+		})
+		hdone()
+		res.SetAdd("readheader_source_kinds", hkind)
+		if ph, perr := plyfile.ParseHeader(data); perr == nil && hp == nil && e1 == nil {
+			body := data[ph.BodyOffset:]
+			if e2 != nil || !bytes.Equal(rest, body) {
+				res.Violate("header-overread", "ply.ReadHeader on "+readerClass(hkind), input+" hsrc="+hkind,
+					fmt.Sprintf("after ReadHeader the caller's %s holds %d bytes (err %v), the body after end_header has %d: ReadHeader consumed bytes past end_header", hkind, len(rest), e2, len(body)), wit())
+			} else {
+				res.Count("readheader_left_exactly_the_body", 1)
+			}
+		}
+		// a ReadHeader failure / panic shows up in ReadMesh below as well
+	}
 	if p != nil {
 		class := "read-panic"
 		if p.Runtime {
@@ -264,6 +325,13 @@ func runCase(c *run.Ctx, o genOpts) run.Result {
 		return res
 	}
 	res.Count("files_loaded", 1)
+	if nv > 65536 {
+		if m.Format == "ascii" {
+			res.Count("ascii_files_over_65536_vertices_loaded", 1)
+		} else {
+			res.Count("binary_files_over_65536_vertices_loaded", 1)
+		}
+	}
 	if e := ref.WF(*mesh); e != nil {
 		res.Violate("mesh-mismatch", site, input, "the loaded mesh is not well-formed: "+e.Error(), wit())
 		return res
@@ -546,4 +614,13 @@ func sameNum(decoded, stored float64, typ string, ascii bool) bool {
 		return sameBits(float64(float32(decoded)), stored)
 	}
 	return sameBits(decoded, stored)
+}
+
+// readerClass groups the source kinds by what a reader implementation can see of them.
+func readerClass(kind string) string {
+	switch kind {
+	case "*bytes.Reader", "*bytes.Buffer", "*bufio.Reader":
+		return "source implementing io.ByteReader"
+	}
+	return "plain io.Reader source"
 }
